@@ -43,6 +43,9 @@ POOL = [
     "$.l.accumulate($1 + $2).toList()", "max(1, $.n) + min(3, $.n)", "str($.n)",
     "sq($.n)", "$.l.select(sq($)).toList()", "addn($.n, 10)", "$.l.select(addn($, $.n)).sum()", "twice($.n) + sq(2)",
     "$.l.where(sq($) > 4).select(twice($)).toList()",
+    "describe($.n)", "describe($.t)", "describe($.l)", "$.l.select(describe($)).toList()", "[describe($.t), describe($.n)]",
+    "calc('$1 + 1 + 100', $.n)", "calc('$1 * 2', $.n)", "calc('[$1, $1].len() + $1', $.n)", "calc('$1.len()', $.t)",
+    "$.l.select(calc('$1 - 1', $)).toList()",
 ]
 
 
@@ -98,10 +101,18 @@ class Scheduler:
                 sched.gate()          # a switch between overload selection and the payload
                 return d()
             return gated
+        import ply.lex
+        orig_tok = ply.lex.Lexer.token
+
+        def token(lexer):
+            sched.gate()              # a switch between two tokens of a run-time parse
+            return orig_tok(lexer)
         threads = [threading.Thread(target=self.body, args=(i,), daemon=True) for i in range(len(self.jobs))]
         used = []
         R.call = call
         specs.FunctionDefinition.get_delegate = get_delegate
+        ply.lex.Lexer.token = token
+        HOOK[0] = sched.gate
         try:
             for t in threads:
                 t.start()
@@ -127,6 +138,8 @@ class Scheduler:
         finally:
             R.call = orig
             specs.FunctionDefinition.get_delegate = orig_gd
+            ply.lex.Lexer.token = orig_tok
+            HOOK[0] = None
         return used
 
 
@@ -148,13 +161,26 @@ def count_steps(job):
             n[0] += 1
             return d()
         return counted
+    import ply.lex
+    orig_tok = ply.lex.Lexer.token
+
+    def token(lexer):
+        n[0] += 1
+        return orig_tok(lexer)
+
+    def hook():
+        n[0] += 1
     R.call = call
     specs.FunctionDefinition.get_delegate = get_delegate
+    ply.lex.Lexer.token = token
+    HOOK[0] = hook
     try:
         res = job()
     finally:
         R.call = orig
         specs.FunctionDefinition.get_delegate = orig_gd
+        ply.lex.Lexer.token = orig_tok
+        HOOK[0] = None
     return n[0] + 1, res
 
 
@@ -162,10 +188,52 @@ def canon(r):
     return c09.freeze(r) if not (isinstance(r, tuple) and r and r[0] in ("ok", "err")) else (r[0], c09.freeze(r[1]))
 
 
+HOOK = [None]          # called at extra scheduling points that live in host code (member types of an AnyOf parameter)
+
+
+def _hook():
+    h = HOOK[0]
+    if h is not None:
+        h()
+
+
+def host_functions(shared):
+    """Host functions of the kinds the documentation describes: one whose parameter is AnyOf(<host types>) - the member
+    types reach a scheduling point inside check(), so a switch can fall INSIDE AnyOf.check and between check and
+    convert - and one that parses and evaluates a formula at run time through the yaql_interface it is given."""
+    from yaql.language import specs, yaqltypes
+
+    class Tagged(yaqltypes.PythonType):
+        __slots__ = ("tag",)
+
+        def __init__(self, python_type, tag):
+            super().__init__(python_type, False)
+            self.tag = tag
+
+        def check(self, value, context, *args, **kwargs):
+            _hook()
+            r = super().check(value, context, *args, **kwargs)
+            _hook()
+            return r
+
+        def convert(self, value, *args, **kwargs):
+            return "%s:%s" % (self.tag, super().convert(value, *args, **kwargs))
+
+    @specs.parameter("value", yaqltypes.AnyOf(Tagged(int, "int"), Tagged(str, "str"), Tagged(tuple, "seq")))
+    def describe(value):
+        return value
+
+    def calc(yaql_interface, formula, x):
+        return yaql_interface(formula, x)
+    shared.register_function(describe, name="describe")
+    shared.register_function(calc, name="calc")
+
+
 def shared_context():
     import yaql
     root = yaql.create_context()
     shared = root.create_child_context()
+    host_functions(shared)
     shared["hv"] = [1, 2, 3]
     shared["own"] = {"w": 1}
     logs = {}
@@ -204,7 +272,44 @@ def globals_snapshot():
     return out
 
 
+def _slots_of(obj):
+    names = []
+    for cls in type(obj).__mro__:
+        sl = cls.__dict__.get("__slots__", ())
+        names.extend([sl] if isinstance(sl, str) else list(sl))
+    names.extend(getattr(obj, "__dict__", {}).keys())
+    return [n for n in dict.fromkeys(names) if not n.startswith("__")]
+
+
+def deep_state(v, depth=0):
+    """Structural fingerprint of everything reachable from a FunctionDefinition through yaql-defined objects (parameter
+    definitions, smart types and their member types): any write to a slot of any of them shows."""
+    if isinstance(v, (int, str, bool, float, type(None))):
+        return repr(v)
+    if depth > 6:
+        return type(v).__name__
+    if isinstance(v, (list, tuple)):
+        return (type(v).__name__,) + tuple(deep_state(x, depth + 1) for x in v)
+    if isinstance(v, dict):
+        return ("dict",) + tuple((repr(k), deep_state(x, depth + 1)) for k, x in v.items())
+    mod = getattr(type(v), "__module__", "") or ""
+    if mod.startswith("yaql.language.yaqltypes") or mod.startswith("yaql.language.specs") or type(v).__name__ == "Tagged":
+        return (type(v).__name__,) + tuple((n, deep_state(getattr(v, n, "<unset>"), depth + 1)) for n in _slots_of(v))
+    return (type(v).__name__, id(v))
+
+
 def fd_snapshot(ctx):
+    out = []
+    c = ctx
+    while c is not None:
+        for name, fds in sorted(getattr(c, "_functions", {}).items()):
+            for fd in fds:
+                out.append((name, deep_state(fd)))
+        c = c.parent
+    return sorted(out, key=repr)
+
+
+def fd_snapshot_shallow(ctx):
     out = []
     c = ctx
     while c is not None:
